@@ -454,7 +454,18 @@ func upsertLadder(c *Ctx, id string) {
 	w := c.W
 	outer := w.Method("couchbase", "cbMetadata", "saveVBucketCheckpoint")
 	c.need(outer != nil && len(outer.AnonFuncs) == 1, id, "cbMetadata.saveVBucketCheckpoint returning one closure")
-	fn := outer.AnonFuncs[0]
+	ladder(c, id, "upsert-ladder", outer.AnonFuncs[0], "UpsertXattrs", "CreateDocument")
+}
+
+// registerLadder (C10): the instance document is written the same way: update | update(key not found) → create → update.
+func registerLadder(c *Ctx, id string) {
+	fn := c.W.Method("couchbase", "cbMembership", "register")
+	c.need(fn != nil, id, "cbMembership.register")
+	ladder(c, id, "register-ladder", fn, "UpdateDocument", "CreateDocument")
+}
+
+func ladder(c *Ctx, id, key string, fn *ssa.Function, writeName, createName string) {
+	w := c.W
 	c.see(fn)
 	var ups []*ssa.Call
 	var create *ssa.Call
@@ -464,23 +475,32 @@ func upsertLadder(c *Ctx, id string) {
 			return "", nil
 		}
 		switch call.Common().StaticCallee().Name() {
-		case "UpsertXattrs":
+		case writeName:
 			ups = append(ups, call)
 			return "upsert", nil
-		case "CreateDocument":
+		case createName:
 			create = call
 			return "create", nil
 		}
 		return "", nil
 	}, 0)
 	want := map[string]bool{"upsert": true, "upsert create": true, "upsert create upsert": true}
-	ok := complete && len(seqs) == 3
+	ok := complete
+	seen := map[string]bool{}
 	for _, s := range seqs {
+		s = strings.TrimSpace(strings.TrimSuffix(s, "!panic"))
+		if s == "" {
+			continue // a path that ends before the first write (an earlier step failed)
+		}
 		if !want[s] {
 			ok = false
 		}
+		seen[s] = true
 	}
-	c.Check(ok, id, "upsert-ladder:paths", fn.Pos(), fmt.Sprintf("paths %q", seqs), fmt.Sprintf("the checkpoint write does not follow upsert | upsert→create | upsert→create→upsert: %q", seqs))
+	if len(seen) != 3 {
+		ok = false
+	}
+	c.Check(ok, id, key+":paths", fn.Pos(), fmt.Sprintf("paths %q", seqs), fmt.Sprintf("the checkpoint write does not follow upsert | upsert→create | upsert→create→upsert: %q", seqs))
 	if create == nil || len(ups) == 0 {
 		return
 	}
@@ -519,18 +539,18 @@ func upsertLadder(c *Ctx, id string) {
 			gFail = true // the predicate is about a failure of that upsert
 		}
 	}
-	c.Check(gFail && gKNF, id, "upsert-ladder:create", create.Pos(), "the document is created only after the upsert failed with key-not-found", fmt.Sprintf("the create step is not guarded by (first upsert failed: %v) ∧ (status = key not found: %v)", gFail, gKNF))
+	c.Check(gFail && gKNF, id, key+":create", create.Pos(), "the document is created only after the upsert failed with key-not-found", fmt.Sprintf("the create step is not guarded by (first upsert failed: %v) ∧ (status = key not found: %v)", gFail, gKNF))
 	// second upsert: only after create succeeded
 	for _, u := range ups {
 		if u == first {
 			continue
 		}
 		ok2 := errGuard(u.Block(), true, func(v ssa.Value) bool { return v == ssa.Value(create) })
-		c.Check(ok2, id, "upsert-ladder:retry", u.Pos(), "the second upsert runs only after the create succeeded", "the second upsert is not guarded by the create's success")
+		c.Check(ok2, id, key+":retry", u.Pos(), "the second upsert runs only after the create succeeded", "the second upsert is not guarded by the create's success")
 	}
 	// the result is the error of the last step
 	for _, call := range append(append([]*ssa.Call{}, ups...), create) {
-		c.Check(reported(errorSinks(call)), id, fmt.Sprintf("upsert-ladder:result:%s", w.pos(call.Pos())), call.Pos(), "the step's error can reach the result", "a step's error never reaches the result: an unconfirmed write is reported as success")
+		c.Check(reported(errorSinks(call)), id, fmt.Sprintf("%s:result:%s", key, w.pos(call.Pos())), call.Pos(), "the step's error can reach the result", "a step's error never reaches the result: an unconfirmed write is reported as success")
 	}
 }
 
